@@ -127,6 +127,14 @@ def cases(ctx):
             if (j + 1) % k == 0:
                 prog.append({"op": "flush"})
         yield {"kind": "mburst", "k": k, "prog": prog, "script": [rng.randrange(2) for _ in range(128)]}
+    for _ in range(ctx.n(12, 400)):
+        # histories of completed EPR operations (keep + measure, measure-directly, remote state preparation)
+        k = rng.choice([1, 2, 3, 5])
+        ops = []
+        for _j in range(rng.choice([40, 80, 120]) if ctx.quick else rng.choice([100, 200, 400])):
+            kind = rng.choice(["create_keep", "recv_keep", "create_measure", "recv_measure", "create_rsp", "recv_rsp", "recv_keep_info"])
+            ops.append([kind, rng.choice([1, 1, 2, 3]) if "measure" in kind or "rsp" == kind[-3:] and kind.startswith("create") else rng.choice([1, 2])])
+        yield {"kind": "epr-history", "k": k, "ops": ops, "hardware": rng.choice(["generic", "generic", "nv"])}
     for _ in range(ctx.n(40, 2000)):
         depth = rng.choice([5, 6, 7, 8, 9, 10])
         yield {"kind": "deep", "depth": depth, "prog": deep_program(rng, depth), "script": [rng.randrange(2) for _ in range(16)]}
@@ -158,9 +166,85 @@ def deep_program(rng, depth):
     return prog + body + [{"op": "add", "target": {"kind": "entry", "array": "c0", "idx": 0}, "other": 100, "mod": None}]
 
 
+def _epr_history(ctx, case):
+    """Completed EPR operations in a long row on one connection: the active-register set must be unchanged by each,
+    every flush must release all measurement registers, compilation must keep succeeding and the controller must run."""
+    from netqasm.sdk.epr_socket import EPRSocket
+    from vf.harness import controller as hc
+    from vf.harness.link import LinkModel, PlannedRequest
+    from vf.harness.pipeline import Pipe
+    plan = []
+    for kind, n in case["ops"]:
+        role = "create" if kind.startswith("create") else "recv"
+        tp = "M" if "measure" in kind else ("R" if "rsp" in kind else "K")
+        plan.append(PlannedRequest(role, tp, 1 if kind == "recv_rsp" else n))
+    es = EPRSocket("bob")
+    link = LinkModel(plan, partners=False)
+    hw = case["hardware"]
+    pipe = Pipe(epr_sockets=[es], link=link, max_qubits=5 if hw == "generic" else 4, hardware=hw, script=[0, 1] * 64, step_limit=2000000)
+    conn = pipe.conn
+    mm = conn.builder._mem_mgr
+    done = 0
+    try:
+        for i, (kind, n) in enumerate(case["ops"]):
+            before = set(mm._active_registers)
+            try:
+                if kind == "create_keep":
+                    for q in es.create_keep(n):
+                        q.measure()
+                elif kind == "recv_keep":
+                    for q in es.recv_keep(n):
+                        q.measure()
+                elif kind == "recv_keep_info":
+                    for q in es.recv_keep_with_info(n)[0]:
+                        q.measure()
+                elif kind == "create_measure":
+                    es.create_measure(n)
+                elif kind == "recv_measure":
+                    es.recv_measure(n)
+                elif kind == "create_rsp":
+                    es.create_rsp(n)
+                elif kind == "recv_rsp":
+                    for q in es.recv_rsp(1):
+                        q.measure()
+            except (AssertionError, ValueError) as e:
+                if hw == "nv":
+                    ctx.count("sdk_build_time_refusals_nv")
+                    return ctx.case({"kind": "epr-history", "nops": i, "k": case["k"], "hardware": hw, "digest": hash_prog(case["ops"])}, False)
+                ctx.fail(case, f"EPR operation {i} ({kind} x{n}) after {i} completed operations could not be compiled: {type(e).__name__}: {e}")
+                return ctx.case(case, True)
+            except RuntimeError as e:
+                ctx.fail(case, f"EPR operation {i} ({kind} x{n}) after {i} completed operations could not be compiled: {e}")
+                return ctx.case(case, True)
+            ctx.count("operations_balanced")
+            ctx.count("epr_operations_balanced")
+            now = set(mm._active_registers)
+            if now != before:
+                ctx.fail(case, f"completed EPR operation {i} ({kind} x{n}) changed the set of active registers: leaked "
+                               f"{sorted(map(str, now - before))} released {sorted(map(str, before - now))}")
+                return ctx.case(case, True)
+            done += 1
+            if done % case["k"] == 0:
+                conn.flush()
+                used = [str(r) for r, u in mm._used_meas_registers.items() if u]
+                if used:
+                    ctx.fail(case, f"after a flush the measurement registers {used} are still marked in use")
+                    return ctx.case(case, True)
+        conn.flush()
+        conn.close()
+    except (hc.ControllerFault, hc.Deadlock, hc.StepLimit) as e:
+        ctx.fail(case, f"controller failed while running a history of completed EPR operations (after {done}): {e}")
+        return ctx.case(case, True)
+    ctx.count("top_level_operations", done)
+    ctx.case({"kind": "epr-history", "nops": done, "k": case["k"], "hardware": hw, "digest": hash_prog(case["ops"]),
+              "first_operations": case["ops"][:6]}, done >= 40)
+
+
 def run_case(ctx, case):
     _state["ctx"] = ctx
     _state["viol"] = None
+    if case["kind"] == "epr-history":
+        return _epr_history(ctx, case)
     prog, script = case["prog"], case["script"]
     mon = make_monitor(ctx, case)
     nops = sum(1 for s in prog if s["op"] != "flush")
